@@ -60,6 +60,10 @@ def drive(tier):
     lens = gen.SLEN_Q if tier == "quick" else gen.SLEN_T
     descs = []
     # systematic part: every CompactSize boundary for script length, item length, item count, vin/vout count
+    for n in (65535, 65536):
+        d = gen.gen_tx(r, nin=1, nout=1, witness="none", lens=[0])
+        d["vin"][0]["script"] = gen.rbytes(r, n)
+        descs.append(d)
     for n in [0, 1, 252, 253, 254, 255, 256] + ([65535, 65536] if tier == "thorough" else []):
         d = gen.gen_tx(r, nin=1, nout=1, witness="none")
         d["vin"][0]["script"] = gen.rbytes(r, n)
@@ -112,10 +116,44 @@ def drive(tier):
                     encs.append(enc)
         return encs
 
+    def reserialise_after_edits(d):
+        """a mutable transaction serialised, edited (witness replaced / removed, fields assigned), serialised again:
+        the second serialisation must be the wire form of the *current* field values"""
+        from bitcoin.core import CTxWitness, CTxInWitness
+        from bitcoin.core.script import CScriptWitness
+        import copy
+        k, tx = call(gen.build_tx, d, True)
+        if k == "exc" or len(d["vin"]) > 6:
+            return
+        call(tx.serialize)
+        call(tx.has_witness)
+        d2 = copy.deepcopy(d)
+        had = d["wit"] not in (None, "noentries") and any(len(s_) for s_ in d["wit"])
+        if had:
+            d2["wit"] = None
+            tx.wit = CTxWitness()
+        else:
+            d2["wit"] = [[b"\x07" * (1 + i)] if i % 2 == 0 else [] for i in range(len(d["vin"]))]
+            tx.wit = CTxWitness(tuple(CTxInWitness(CScriptWitness(tuple(st))) for st in d2["wit"]))
+        d2["lock"] = (d["lock"] + 1) & 0xffffffff
+        tx.nLockTime = d2["lock"]
+        for ww in (True, False):
+            k2, enc = call(tx.serialize) if ww else call(tx.serialize, dict(include_witness=False))
+            R.add("wire.ser", {"kind": "tx", "obj": gen.tx_json(d2), "withwit": ww, "variant": "mutable-after-edit"},
+                  {"k": "ret", "v": b2l(enc)} if k2 == "ret" else dict(exc_info(enc), k="exc"))
+        # and back again
+        tx.wit = gen.build_tx(d, True).wit
+        tx.nLockTime = d["lock"]
+        k2, enc = call(tx.serialize)
+        R.add("wire.ser", {"kind": "tx", "obj": gen.tx_json(d), "withwit": True, "variant": "mutable-after-edit-back"},
+              {"k": "ret", "v": b2l(enc)} if k2 == "ret" else dict(exc_info(enc), k="exc"))
+
     nrec_obj = 0
     for idx, d in enumerate(descs):
         js = gen.tx_json(d)
         encs = one("tx", js, [lambda: gen.build_tx(d, False), lambda: gen.build_tx(d, True)], (True, False))
+        if idx % 3 == 0:
+            reserialise_after_edits(d)
         if not encs:
             continue
         enc = encs[0]
